@@ -305,7 +305,7 @@ int main(int argc, char** argv)
                     t0 = clk::now();
                 }
             if (!any) std::this_thread::sleep_for(std::chrono::microseconds(50));
-            if (clk::now() - t0 > std::chrono::seconds(8))
+            if (clk::now() - t0 > std::chrono::seconds(12))
             {
                 ev("quiescent").done();
                 vlog::flush();
